@@ -518,6 +518,7 @@ func (f *Frame) oblige(kind string, cl *Clause, reach, goal string) *Obligation 
 	ob := &Obligation{Name: f.obName(kind), Func: c.key, Kind: kind, NDecl: len(c.decls), NFact: len(c.facts), Reach: reach, Goal: goal, Ctx: c, Expect: "unsat"}
 	if cl != nil {
 		ob.Props = cl.Props
+		ob.Needs = cl.Needs
 		ob.Label = cl.Label
 		ob.Clause = cl.Text
 		ob.Where = cl.Where
